@@ -691,6 +691,101 @@ def eval_hcases(ck, name, cases):
     return parse_report(out, H_LISTS), out
 
 
+# ---- shrinking of a violating history: smaller histories are re-run through the REAL code and re-judged inside Coq
+BEGINS = ("begin", "beginf")
+REFS = ("more", "moref", "end", "abort")
+
+
+def _refs(steps):
+    """for every step the index of the begin step whose request it belongs to (None: refers to nothing)"""
+    open_, out = [], []
+    for i, st in enumerate(steps):
+        k = st["k"]
+        if k in BEGINS:
+            open_.append(i)
+            out.append(i)
+        elif k in REFS:
+            idx = st.get("idx", 0)
+            ref = open_[idx] if 0 <= idx < len(open_) else None
+            out.append(ref)
+            if ref is not None and k in ("end", "abort"):
+                open_.remove(ref)
+        else:
+            out.append(None)
+    return out
+
+
+def _rebuild(steps, refs, keep):
+    """the sub-history of the kept step positions, open-request indices recomputed"""
+    open_, out = [], []
+    for i in keep:
+        st = json.loads(json.dumps(steps[i]))
+        k = st["k"]
+        if k in BEGINS:
+            st["idx"] = len(open_)
+            open_.append(refs[i])
+        elif k in REFS:
+            if refs[i] not in open_:
+                continue
+            st["idx"] = open_.index(refs[i])
+            if k in ("end", "abort"):
+                open_.remove(refs[i])
+        out.append(st)
+    return out
+
+
+def _candidates(steps):
+    refs = _refs(steps)
+    n = len(steps)
+    for i in range(n):                                   # drop one step (a begin takes the steps of its request with it)
+        if steps[i]["k"] in BEGINS:
+            keep = [j for j in range(n) if j != i and not (steps[j]["k"] in REFS and refs[j] == i)]
+        else:
+            keep = [j for j in range(n) if j != i]
+        yield _rebuild(steps, refs, keep)
+    for i in range(n):                                   # drop one stream / one entry
+        ss = steps[i].get("streams") or []
+        flushing = steps[i]["k"] in ("beginf", "moref")
+        for j in range(len(ss)):
+            if len(ss) > 1 and not (flushing and j == len(ss) - 1):
+                c = json.loads(json.dumps(steps))
+                del c[i]["streams"][j]
+                yield _rebuild(c, refs, list(range(n)))
+            es = ss[j]["entries"]
+            for e in range(len(es)):
+                if len(es) > 1 and not es[e].get("big"):
+                    c = json.loads(json.dumps(steps))
+                    del c[i]["streams"][j]["entries"][e]
+                    yield _rebuild(c, refs, list(range(n)))
+
+
+def shrink_hist(ck, case, rounds=12):
+    """greedy: the first smaller history that still violates replaces the current one; every candidate is executed by the harness"""
+    cur = case
+    try:
+        for rnd in range(rounds):
+            cands = [{"id": i, "class": "shrink", "steps": st} for i, st in enumerate(_candidates(cur["steps"])) if st]
+            if not cands:
+                break
+            inp = os.path.join(ck.work, "shrink_in.jsonl")
+            outp = os.path.join(ck.work, "shrink_out.jsonl")
+            with open(inp, "w") as f:
+                for c in cands:
+                    f.write(json.dumps(c) + "\n")
+            rc, _ = ck.go_run("seriesid", ["--mode", "hist", "--cases", inp, "--out", outp])
+            if rc != 0:
+                break
+            ran = [json.loads(l) for l in open(outp)]
+            ran = [c for c in ran if not c.get("panic")]
+            r, _ = eval_hcases(ck, "C04_shrink_%d" % rnd, ran)
+            if not r or not r["V_hist"]:
+                break
+            cur = min((c for c in ran if c["id"] in set(r["V_hist"])), key=lambda c: len(json.dumps(c["steps"])))
+    except Exception as e:  # noqa: BLE001 - shrinking is best effort, the unshrunk case is a valid replay
+        ck.log("shrinking stopped: %r" % e)
+    return cur
+
+
 def hdoc_to_coq(c):
     fpid = {}
 
@@ -805,9 +900,11 @@ def run_hist(ck):
     ck.obligation("spec: every acknowledged sample has a successfully inserted series row of its day and type, in every history (insert failures per chunk, retries, malformed bodies, overlapping pushes, requests above 1 MiB sent in several chunks, resets)",
                   not res["V_hist"], "case ids: %s" % res["V_hist"][:10])
     if res["V_hist"]:
-        c = min((byid[i] for i in res["V_hist"]), key=size)
+        c0 = min((byid[i] for i in res["V_hist"]), key=size)
+        c = shrink_hist(ck, c0)
         ck.violation({"property": "C04", "part": "hist", "kind": "acknowledged sample without series row of its day and type",
                       "case": c, "readable": show_hist(c), "explanation": "hv (model/SeriesIndex.v) on the observed inserts",
+                      "shrunk": "from %d steps (generated history %s) to %d steps, every candidate re-run through the real code" % (len(c0["steps"]), c0["id"], len(c["steps"])),
                       "replay": "seriesid --mode hist --cases <file with this case>"})
     elif res["M_hist"]:
         c = min((byid[i] for i in res["M_hist"]), key=size)
